@@ -260,7 +260,15 @@ def gen_case(rng):
         loc.append(np.asarray(q, float))
         regs.append(reg)
     P = G.to_global(s, np.array(loc))
-    return {"source": s, "observers": P.tolist(), "regions": regs}
+    case = {"source": s, "observers": P.tolist(), "regions": regs}
+    if rng.random() < 0.3:
+        # hostile call composition: the source is evaluated as the SECOND entry of a two-source call whose first
+        # entry is another source of the same class (same vertex count for polylines: one vectorised group)
+        c2 = rand_spec(rng, cls)
+        if cls == "Polyline":
+            c2["vertices"] = rng.normal(size=(len(s["vertices"]), 3)).tolist()
+        case["companion"] = c2
+    return case
 
 
 def check_case(ctx, case, only=None):
@@ -271,8 +279,14 @@ def check_case(ctx, case, only=None):
     try:
         with quiet(), np.errstate(all="ignore"):
             src = objs.build(s)
-            Bl = np.asarray(magpy.getB(src, P, squeeze=False))[0, 0, 0].reshape(-1, 3)
-            Hl = np.asarray(magpy.getH(src, P, squeeze=False))[0, 0, 0].reshape(-1, 3)
+            if case.get("companion"):
+                srcs = [objs.build(case["companion"]), src]
+                Bl = np.asarray(magpy.getB(srcs, P, squeeze=False))[1, 0, 0].reshape(-1, 3)
+                Hl = np.asarray(magpy.getH(srcs, P, squeeze=False))[1, 0, 0].reshape(-1, 3)
+                ctx.count("cases_with_companion_source")
+            else:
+                Bl = np.asarray(magpy.getB(src, P, squeeze=False))[0, 0, 0].reshape(-1, 3)
+                Hl = np.asarray(magpy.getH(src, P, squeeze=False))[0, 0, 0].reshape(-1, 3)
     except Exception as e:
         # raising on special sets is C15's business; everywhere else it is a mismatch with 'returns the field'
         ctx.count("library_raised:" + type(e).__name__)
@@ -326,7 +340,8 @@ def check_case(ctx, case, only=None):
                     near_axis = bool(np.hypot(pl[0], pl[1]) < 0.1 * ro)
                 ctx.violation({"kind": "field!=first-principles", "cls": s["cls"], "field": F, "region": reg,
                                "near_axis_r<0.1r2": near_axis},
-                              {"source": s, "observers": [case["observers"][i]], "regions": [reg]},
+                              {"source": s, "observers": [case["observers"][i]], "regions": [reg],
+                               **({"companion": case["companion"]} if case.get("companion") else {})},
                               {"lib": lib, "ref": ref, "err": d, "allowed": allowed, "local": pl, "oracle": info,
                                "rel": d / (np.linalg.norm(ref) + 1e-300)})
 
